@@ -9,7 +9,7 @@
    There are no theorems about this file: it is the executable reference for the program-level
    correspondence run (checks/c07.py, implrun evalprog).  No proofs in this file. *)
 From Coq Require Import List NArith ZArith Bool.
-From Falco Require Import Base.Res Base.Bytes Model.Float Model.Acl Model.Val Model.Assign Model.Oper.
+From Falco Require Import Base.Res Base.Bytes Model.Float Model.Acl Model.Val Model.Assign Model.Oper Model.Concat.
 Import ListNotations.
 
 Inductive rexp := RLit (v : val) | RVar (x : nat).
@@ -19,9 +19,13 @@ Inductive cexp :=
 | ENot (e : cexp)                         (* !e *)
 | EInfix (op : bop) (l r : cexp).         (* l op r, op <> concat; nested operands are parenthesised *)
 
+(* operand of a concatenation series as written: "..." | var.x | <n>s *)
+Inductive ritem := RILit (s : str) | RIVar (x : nat) | RIRTime (ns : Z).
+
 Inductive pstmt :=
 | PDeclare (x : nat) (t : vtype)
 | PSet (x : nat) (op : aop) (r : rexp)
+| PSetCat (x : nat) (op : aop) (items : list (sign * ritem))     (* set var.x op a b + c ... ; (two or more operands) *)
 | PIf (c : cexp) (t : list pstmt) (elifs : list (cexp * list pstmt)) (e : option (list pstmt))
 | PSwitch (ctl : rexp) (cases : list (option (bool * str) * list pstmt * bool)) (dflt : option nat).
   (* case: test = Some (is_regex, literal) | None for default; body; ends with fallthrough *)
@@ -87,6 +91,41 @@ Definition truth (o : operand) : res bool :=
 (* outcome of a statement list: the store, and whether an error stopped it *)
 Inductive outcome := Done (s : store) | Failed (s : store) | Panicked.
 
+(* toSeriesExpression: every identifier of the series must be a declared variable *)
+Fixpoint resolve_items (s : store) (l : list (sign * ritem)) : option (list sitem) :=
+  match l with
+  | [] => Some []
+  | (sg, it) :: rest =>
+      match resolve_items s rest with
+      | None => None
+      | Some tl =>
+          match it with
+          | RILit t => Some (mkItem sg (CLit t) :: tl)
+          | RIRTime d => Some (mkItem sg (CRTimeLit d) :: tl)
+          | RIVar y => match lookup y s with Some v => Some (mkItem sg (CVar v) :: tl) | None => None end
+          end
+      end
+  end.
+
+Definition exec_set_cat (s : store) (x : nat) (op : aop) (items : list (sign * ritem)) : outcome :=
+  match lookup x s with
+  | None => Failed s
+  | Some l =>
+      match resolve_items s items with
+      | None => Failed s
+      | Some series =>
+          match concat_series true series with
+          | OK v => match local_set parse_ip op l (mkOp v false) with
+                    | AOk v' => Done (update x v' s)
+                    | AErr v' => Failed (update x v' s)
+                    | ACrash => Panicked
+                    end
+          | Crash => Panicked
+          | _ => Failed s
+          end
+      end
+  end.
+
 Definition exec_set (s : store) (x : nat) (op : aop) (r : rexp) : outcome :=
   match lookup x s with
   | None => Failed s
@@ -111,6 +150,7 @@ Fixpoint exec_stmt (st : pstmt) (s : store) {struct st} : outcome :=
   match st with
   | PDeclare x t => Done (update x (create t) s)
   | PSet x op r => exec_set s x op r
+  | PSetCat x op items => exec_set_cat s x op items
   | PIf c t elifs e =>
       match eval_cexp s c with
       | OK o =>
